@@ -237,7 +237,7 @@ def coq_case(case, obs, mode):
             C.copt(i["kwargs"], lambda x: str(nm(x))), _pairs(nm, obs["tagged"]))
     else:
         res = "IndexError"
-        other = obs.get("exc") != "IndexError"
+        other = obs.get("exc") != "raised:IndexError"
     return "(mkCase %s %s %d %s %s %s %s %s %s %s %s)" % (
         C.clist([C.cstr_codes(x) for x in nm.tbl]), C.clist([C.cstr_codes(x) for x in obs["reprs"]]),
         case["via"], code, C.cbool(obs["has_dc"]), view_f, view_t, attrs, res, C.cbool(other),
@@ -318,9 +318,10 @@ def regenerate(run):
         text = T.stub(SOURCE, str(e))
         errs.append("harness/translate/fromfunction.py aborted on %s: %s "
                     "(Gen/FromFunction.v has no kernel; Properties/C18.v cannot be re-proved)" % (SOURCE, e))
-    except (OSError, SyntaxError) as e:
+    except Exception as e:   # unreadable / unparsable source, or a defect of the translator: refuse
         text = T.stub(SOURCE, repr(e))
-        errs.append("harness/translate/fromfunction.py cannot read %s: %r" % (SOURCE, e))
+        errs.append("harness/translate/fromfunction.py cannot translate %s: %r "
+                    "(Gen/FromFunction.v has no kernel; Properties/C18.v cannot be re-proved)" % (SOURCE, e))
     with C.CoqLock():
         C.write_if_changed(GEN_FILE, text)
     run.coverage["translated_kernel"] = {"source": SOURCE, "generated": "coq/Gen/FromFunction.v",
